@@ -231,6 +231,19 @@ def _run_server(case, bits, other, mode, coroutine, w):
     else:
         _check(v, w, n0, 'unregistered-event', tgt2, ns,
                'nobody-handles-this', 's', [sid, 1])
+    # an event literally named '*': an ordinary event name like any other
+    # (it cannot have a handler of its own: on('*') IS the catch-all), so it
+    # goes to the catch-all with its name prepended, or is dropped
+    n0 = len(w.rec.events)
+    peer.send_pkt(sio.EVENT, ns, None, ['*', 7])
+    w.settle()
+    if tgt2 is None:
+        new = [e for e in w.rec.events[n0:] if e['kind'] == 'h_enter']
+        if new:
+            v.add('unhandled_event_not_dropped', [e['label'] for e in new],
+                  'star')
+    else:
+        _check(v, w, n0, 'star-event', tgt2, ns, '*', 's', [sid, 7])
     # disconnect (reserved), by one of the causes
     n0 = len(w.rec.events)
     end = case['end']
@@ -314,6 +327,22 @@ def _run_client(case, bits, other, mode, coroutine, w):
         if acks[0].data != want or acks[0].nsp != ns or \
                 acks[0].id != case['id']:
             v.add('ack_content', '%s, wanted %s' % (acks[0], want))
+    # an event literally named '*' (see the server side)
+    n0 = len(w.rec.events)
+    ss.send_pkt(sio.EVENT, ns, None, ['*', 7])
+    w.settle()
+    tgt2 = None
+    if bits & 2:
+        tgt2 = ('func', 'NS', '*', ['event'])
+    elif bits & 8:
+        tgt2 = ('func', '*', '*', ['event', 'ns'])
+    if tgt2 is None:
+        new = [e for e in w.rec.events[n0:] if e['kind'] == 'h_enter']
+        if new:
+            v.add('unhandled_event_not_dropped', [e['label'] for e in new],
+                  'star')
+    else:
+        _check(v, w, n0, 'star-event', tgt2, ns, '*', 'c', [7])
     # disconnect by one of the causes
     n0 = len(w.rec.events)
     end = case['end']
